@@ -5,6 +5,7 @@ package main
 import (
 	"fmt"
 	"go/ast"
+	"go/constant"
 	"go/token"
 	"go/types"
 	"sort"
@@ -191,6 +192,9 @@ func evalGuard(info *types.Info, e ast.Expr, v types.Object, val string, windows
 		return "", false
 	}
 	isV := func(x ast.Expr) bool { return identObj(info, x) == v }
+	if tv, ok := info.Types[e]; ok && tv.Value != nil && tv.Value.Kind() == constant.Bool {
+		return triOf(constant.BoolVal(tv.Value))
+	}
 	switch x := e.(type) {
 	case *ast.UnaryExpr:
 		if x.Op == token.NOT {
@@ -267,6 +271,12 @@ func evalGuard(info *types.Info, e ast.Expr, v types.Object, val string, windows
 			return triUnknown
 		}
 		full := fn.Pkg().Path() + "." + fn.Name()
+		// a predicate of the module over the normalized value (`jumpsContext(normalizedPath)`): evaluate its body
+		if evalPredicateHook != nil && len(x.Args) == 1 && isV(x.Args[0]) && strings.HasPrefix(fn.Pkg().Path(), modPath) {
+			if r, ok := evalPredicateHook(fn, val, windows); ok {
+				return r
+			}
+		}
 		switch full {
 		case "path/filepath.IsAbs":
 			if len(x.Args) == 1 && isV(x.Args[0]) {
@@ -331,6 +341,8 @@ func c13AbsValidFunc(c *Ctx, rule string, fr *FuncRef, windows bool, suffix stri
 		return
 	}
 	g := p.CFGOf(fr.Decl.Body, info)
+	evalPredicateHook = makeEvalPredicate(p)
+	defer func() { evalPredicateHook = nil }()
 	// bounded-exhaustive over cleaned paths; the thorough tier enumerates longer spellings
 	bound := 6
 	if c.Tier == "thorough" {
@@ -1016,5 +1028,65 @@ func c13ValidatorCovers(c *Ctx) {
 			}
 			c.Ob(rule, relPkg(pk.PkgPath)+"."+declName(fr.Decl), fr.Decl.Pos(), len(unused) == 0, true, "%d named parameter(s); never consulted: %v", nparams, unused)
 		}
+	}
+}
+
+// evalPredicateHook evaluates a one-parameter boolean helper of the module on a concrete value by walking its CFG with
+// evalGuard (set by c13AbsValidFunc, which owns the program; nil elsewhere, e.g. in the self-test).
+var evalPredicateHook func(fn *types.Func, val string, windows bool) (tri, bool)
+
+func makeEvalPredicate(p *Prog) func(fn *types.Func, val string, windows bool) (tri, bool) {
+	depth := 0
+	return func(fn *types.Func, val string, windows bool) (tri, bool) {
+		fr := p.DeclOf(fn)
+		if fr == nil || fr.Decl.Body == nil || fr.Decl.Type.Params == nil || len(fr.Decl.Type.Params.List) != 1 || len(fr.Decl.Type.Params.List[0].Names) != 1 || depth > 2 {
+			return triUnknown, false
+		}
+		depth++
+		defer func() { depth-- }()
+		info := fr.Info()
+		pv := info.Defs[fr.Decl.Type.Params.List[0].Names[0]]
+		g := p.CFGOf(fr.Decl.Body, info)
+		results := map[tri]bool{}
+		var walk func(b *cfg.Block, seen map[int32]bool)
+		walk = func(b *cfg.Block, seen map[int32]bool) {
+			if seen[b.Index] {
+				return
+			}
+			seen[b.Index] = true
+			defer delete(seen, b.Index)
+			for _, n := range b.Nodes {
+				if r, ok := n.(*ast.ReturnStmt); ok {
+					if len(r.Results) == 1 {
+						results[evalGuard(info, r.Results[0], pv, val, windows)] = true
+					} else {
+						results[triUnknown] = true
+					}
+					return
+				}
+			}
+			if cond := g.Cond(b); cond != nil {
+				switch evalGuard(info, cond, pv, val, windows) {
+				case triTrue:
+					walk(b.Succs[0], seen)
+				case triFalse:
+					walk(b.Succs[1], seen)
+				default:
+					walk(b.Succs[0], seen)
+					walk(b.Succs[1], seen)
+				}
+				return
+			}
+			for _, s := range b.Succs {
+				walk(s, seen)
+			}
+		}
+		walk(g.G.Blocks[0], map[int32]bool{})
+		if len(results) == 1 {
+			for r := range results {
+				return r, r != triUnknown
+			}
+		}
+		return triUnknown, false
 	}
 }
